@@ -8,3 +8,18 @@ package printer
 // token or position, nor an element of a tree-owned slice, nor anything reachable from a
 // package-level variable.
 //@ frame printer: roots=(*printer).*;NewPrinter allow=F:pkg/visitor/printer.printer.* props=C13,C11
+
+// C15: helper contracts. A helper's contract is its exact event trace (parameters by position:
+// $0 is the receiver); the per-kind methods are checked against these helpers by name, so a
+// change inside a helper fails the helper's own obligation, not 155 callers.
+//@ trace helper printNode := [($1 != nil)] $1.Accept($0) || [!(($1 != nil))] 
+//@ trace helper printList := [] loop($1){$0.printNode($1[idx])}
+//@ trace helper printSeparatedList := [] loop($1,$2){[(idx < len($2))] $0.printNode($1[idx]); $0.printToken($2[idx], $3) | [!((idx < len($2))) && (idx < (len($1) - 1))] $0.printNode($1[idx]); $0.write($3) | [!((idx < len($2))) && !((idx < (len($1) - 1)))] $0.printNode($1[idx])}
+//@ trace helper printToken := [($1 == nil) && ($2 == nil)]  || [($1 == nil) && !(($2 == nil)) && ($1 == nil)] $0.write($2) || [!(($1 == nil)) && !(($1 == nil))] loop($1.FreeFloating){$0.write($1.FreeFloating[idx].Value)}; $0.write($1.Value)
+//@ trace helper ifNode := [($1 == nil)]  => nil || [!(($1 == nil))]  => $2
+//@ trace helper ifNodeList := [($1 == nil)]  => nil || [!(($1 == nil))]  => $2
+//@ trace helper ifNotNodeList := [($1 != nil)]  => nil || [!(($1 != nil))]  => $2
+//@ trace helper ifToken := [($1 == nil)]  => $3 || [!(($1 == nil))]  => $2
+//@ trace helper ifNotToken := [($1 != nil)]  => nil || [!(($1 != nil))]  => $2
+//@ trace helper write := [(len($1) == 0)]  || [!((len($1) == 0)) && ($0.state == 0) && bytes.HasPrefix($1, "<?") && ($0.last != nil) && isValidVarName($0.last[(len($0.last) - 1)]) && isValidVarName($1[0])] store &$0.state := 1; $0.output.Write(" "); store &$0.last := $1; $0.output.Write($1) || [!((len($1) == 0)) && ($0.state == 0) && bytes.HasPrefix($1, "<?") && ($0.last != nil) && isValidVarName($0.last[(len($0.last) - 1)]) && !(isValidVarName($1[0]))] store &$0.state := 1; store &$0.last := $1; $0.output.Write($1) || [!((len($1) == 0)) && ($0.state == 0) && bytes.HasPrefix($1, "<?") && ($0.last != nil) && !(isValidVarName($0.last[(len($0.last) - 1)]))] store &$0.state := 1; store &$0.last := $1; $0.output.Write($1) || [!((len($1) == 0)) && ($0.state == 0) && bytes.HasPrefix($1, "<?") && !(($0.last != nil))] store &$0.state := 1; store &$0.last := $1; $0.output.Write($1) || [!((len($1) == 0)) && ($0.state == 0) && !(bytes.HasPrefix($1, "<?")) && ($0.last != nil) && isValidVarName($0.last[(len($0.last) - 1)]) && isValidVarName($1[0])] $0.output.Write("<?php "); store &$0.state := 1; $0.output.Write(" "); store &$0.last := $1; $0.output.Write($1) || [!((len($1) == 0)) && ($0.state == 0) && !(bytes.HasPrefix($1, "<?")) && ($0.last != nil) && isValidVarName($0.last[(len($0.last) - 1)]) && !(isValidVarName($1[0]))] $0.output.Write("<?php "); store &$0.state := 1; store &$0.last := $1; $0.output.Write($1) || [!((len($1) == 0)) && ($0.state == 0) && !(bytes.HasPrefix($1, "<?")) && ($0.last != nil) && !(isValidVarName($0.last[(len($0.last) - 1)]))] $0.output.Write("<?php "); store &$0.state := 1; store &$0.last := $1; $0.output.Write($1) || [!((len($1) == 0)) && ($0.state == 0) && !(bytes.HasPrefix($1, "<?")) && !(($0.last != nil))] $0.output.Write("<?php "); store &$0.state := 1; store &$0.last := $1; $0.output.Write($1) || [!((len($1) == 0)) && !(($0.state == 0)) && ($0.last != nil) && isValidVarName($0.last[(len($0.last) - 1)]) && isValidVarName($1[0])] $0.output.Write(" "); store &$0.last := $1; $0.output.Write($1) || [!((len($1) == 0)) && !(($0.state == 0)) && ($0.last != nil) && isValidVarName($0.last[(len($0.last) - 1)]) && !(isValidVarName($1[0]))] store &$0.last := $1; $0.output.Write($1) || [!((len($1) == 0)) && !(($0.state == 0)) && ($0.last != nil) && !(isValidVarName($0.last[(len($0.last) - 1)]))] store &$0.last := $1; $0.output.Write($1) || [!((len($1) == 0)) && !(($0.state == 0)) && !(($0.last != nil))] store &$0.last := $1; $0.output.Write($1)
+//@ trace allow-write StmtInlineHtml "?>"
